@@ -446,6 +446,31 @@ pub fn run(name: &str) -> Option<bool> {
             );
             matches!(out, Outcome::Completion(t) if t.contains("--juliet"))
         }
+        // C19: an adjacent group nested in another one was looked for from the first item of the
+        // line, not from the start of the outer block: `--nov -N 1 6 --file v2 3 --nov -N 4`
+        // attached `--file v2 3` to the second `--nov` block, which it precedes
+        "nested_adjacent_group_found_left_of_outer_block" => {
+            let inner = Spec::Adj(vec![
+                item(3, Names::long("file"), Leaf::ReqFlag),
+                pos(4, Ty::Str),
+                pos(5, Ty::U32),
+            ]);
+            let outer = Spec::Adj(vec![
+                item(1, Names::long("nov"), Leaf::ReqFlag),
+                arg(2, Names::short('N'), Ty::U32),
+                Spec::wrap(W::Optional { catch: false }, 6, inner),
+            ]);
+            let o = OptSpec::plain(Spec::Seq(vec![
+                Spec::wrap(W::Many { catch: false }, 7, outer),
+                Spec::wrap(W::Many { catch: false }, 9, pos(8, Ty::U32)),
+            ]));
+            let p = build_options(&o);
+            crate::outcome::run(
+                &p,
+                &bytes(&["--nov", "-N", "1", "6", "--file", "v2", "3", "--nov", "-N", "4"]),
+            )
+            .is_value()
+        }
         _ => return None,
     })
 }
